@@ -203,3 +203,21 @@ def wf_problem(L, R, steps=None):
         k = int(np.argmax(L > R))
         return f"left above right at step {k}: {L[k]!r} > {R[k]!r}"
     return None
+
+
+def touch_public(obj):
+    """read every public data attribute / property of an object (no method calls): reading a value must not change any later answer.
+    Returns the names read."""
+    names = []
+    for n in sorted(set(dir(type(obj))) | set(getattr(obj, "__dict__", {}))):
+        if n.startswith("_"):
+            continue
+        cls_attr = getattr(type(obj), n, None)
+        if cls_attr is not None and callable(cls_attr) and not isinstance(cls_attr, property):
+            continue
+        try:
+            getattr(obj, n)
+            names.append(n)
+        except Exception:
+            pass
+    return names
